@@ -133,6 +133,7 @@ pub fn blocks(thorough: bool) -> Vec<Block> {
         b.push(Block::new(u_runs(), esc(&[0, X, I]), "{e, e+u} x {{}, x, i}"));
         b.push(Block::new(u_kind_triples(), esc(&[0, X]), "{e, e+u} x {{}, x}"));
         b.push(Block::new(u_nested_rep(), esc(&[R]), "{e, e+u} x r"));
+        b.push(Block::new(Universe::new("U_adv(cluster units)", &["\u{d4e}a", ".\u{1f3fb}", "1\u{e33}", "a", "\u{111c2}-"], 4, 1, false), esc(&[R, 0]), "{e, e+u} x {r, {}}"));
         b.push(Block::new(u_feature_rich(), esc(&lattice_all(0, ALL_BITS & !(U | C | E)).iter().map(|c| c.bits).collect::<Vec<u32>>()), "{e, e+u} x all 4,096 combinations of the other flags"));
     } else {
         b.push(Block::new(crate::props::c05::u_rep_single(&["1", "\u{20ac}", " ", "\u{1f4a9}"], 7), esc(&[R | D, R | S, R | NW, R | D | I, R | W | X]), "{e, e+u} x 5 bases"));
